@@ -248,3 +248,15 @@ Proof.
 Qed.
 
 Print Assumptions C13_whole_pipeline_accept.
+
+(* The bounds the fit check compares with (Integer::min_value / max_value), TRANSLATED from generation/src/mir/mod.rs on
+   every build, are the MIN / MAX of exactly the Rust integer type the address type names: the model's
+   [integer_min] / [integer_max] (through [integer_ity]) are the code's for all seven address types. *)
+From DD Require GenIntegers.
+Theorem C13_address_type_bounds_from_source : forall i,
+  exists smin bmin smax bmax,
+    In (GenIntegers.integer_variant i, (smin, bmin), (smax, bmax)) DDGen.IntegerRows.integer_rows /\
+    integer_min i = ity_min {| signed := smin; bits := bmin |} /\
+    integer_max i = ity_max {| signed := smax; bits := bmax |}.
+Proof. exact GenIntegers.integer_bounds_from_source. Qed.
+Print Assumptions C13_address_type_bounds_from_source.
